@@ -1,4 +1,112 @@
+//! C15 — CL03 proof of knowledge of a signature: complete and bound to its statement (form A, deviation bound <= 1).
+#![allow(non_snake_case)]
 use crate::common::*;
-use zkryptium::cl03::keys::{CL03PublicKey, CL03SecretKey};
+use mccore::{int_leaf_paths, json_get, json_set, par_for, path_class, subsets, O};
+use rug::Integer;
+use serde_json::{json, Value};
+use zkryptium::cl03::bases::Bases;
+use zkryptium::cl03::keys::{CL03CommitmentPublicKey, CL03PublicKey, CL03SecretKey};
 use zkryptium::schemes::algorithms::{Scheme, CL03};
-pub fn run<CS: Suite>(_env: &Env) where CL03<CS>: Scheme<PubKey = CL03PublicKey, PrivKey = CL03SecretKey>, CS::HashAlg: sha2::Digest {}
+use zkryptium::schemes::generics::{PoKSignature, Signature};
+
+pub type Pok<CS> = PoKSignature<CL03<CS>>;
+
+/// honest signature + proof for hidden set u
+pub fn honest<CS: Suite>(w: &World<CS>, n: usize, m: &[Integer], u: &[usize]) -> O<(Signature<CL03<CS>>, Pok<CS>)>
+where CL03<CS>: Scheme<PubKey = CL03PublicKey, PrivKey = CL03SecretKey>, CS::HashAlg: sha2::Digest {
+    let bases = Bases(w.bases.0[..n].to_vec());
+    let cpk = CL03CommitmentPublicKey { N: w.cpk.N.clone(), h: w.cpk.h.clone(), g_bases: w.cpk.g_bases[..n].to_vec() };
+    let mv = msgs(m);
+    let u = u.to_vec();
+    mccore::guard_val(move || {
+        let sig = Signature::<CL03<CS>>::sign_multiattr(&w.pk, &w.sk, &bases, &mv);
+        let p = Pok::<CS>::proof_gen(sig.cl03Signature(), &cpk, &w.pk, &bases, &mv, &u);
+        (sig, p)
+    })
+}
+pub fn verify<CS: Suite>(p: &Pok<CS>, cpk: &CL03CommitmentPublicKey, pk: &CL03PublicKey, bases: &Bases, revealed: &[Integer], u: &[usize], n: usize) -> O<bool>
+where CL03<CS>: Scheme, CS::HashAlg: sha2::Digest { let rv = msgs(revealed); vcall(|| p.proof_verify(cpk, pk, bases, &rv, u, n)) }
+
+pub fn run<CS: Suite>(env: &Env)
+where CL03<CS>: Scheme<PubKey = CL03PublicKey, PrivKey = CL03SecretKey>, CS::HashAlg: sha2::Digest {
+    let seed = env.ctx.seed;
+    let maxn = if env.thorough() { 5 } else { 3 };
+    let worlds: Vec<World<CS>> = { let v = std::sync::Mutex::new(Vec::new()); par_for(&[0, 1], |_, _| { let w = World::<CS>::generate(maxn + 1); v.lock().unwrap().push(w); }); v.into_inner().unwrap() };
+    let (w, other) = (&worlds[0], &worlds[1]);
+    #[derive(Clone)]
+    enum Kind { Flow, Leaf(usize, usize) }
+    struct Root { id: String, n: usize, u: Vec<usize>, kind: Kind }
+    let mut roots = Vec::new();
+    for n in 1..=maxn { for u in subsets(n) { if n > 3 && !(u.len() <= 1 || u.len() >= n - 1) { continue; } roots.push(Root { id: format!("{}/n{}/hidden{:?}", CS::NAME, n, u), n, u, kind: Kind::Flow }); } }
+    let mut classes: Vec<(usize, Vec<usize>)> = vec![(1, vec![]), (1, vec![0]), (2, vec![1]), (3, vec![0, 2])];
+    if env.thorough() { classes.push((2, vec![0, 1])); classes.push((3, vec![0, 1, 2])); classes.push((3, vec![])); }
+    for (n, u) in classes { let nch = 16; for ch in 0..nch { roots.push(Root { id: format!("{}/leaf-edits/n{}/hidden{:?}/chunk{}", CS::NAME, n, u, ch), n, u: u.clone(), kind: Kind::Leaf(ch, nch) }); } }
+    env.ctx.set_rule("flows: n in 1..=3 (thorough 1..=5) x ALL subsets U of hidden positions (none, some, all), commitment key over the issuer modulus: sign_multiattr -> proof_gen(U) -> proof_verify(revealed, U, n) = true; statement edits (each => false, panic counts as refusal): each revealed attribute changed / dropped / duplicated, other signer key, other bases, other commitment key (other h, other g_i, own modulus), EVERY other hidden set U', n +- 1. Leaf edits: EVERY integer leaf of the serialized proof +1 / -1 / zero / sibling swap => false. State = (flow, edit); non-trivial = the real verifier ran.");
+    par_for(&roots, |_, r| {
+        if !env.want(&r.id) || env.ctx.out_of_time() { return; }
+        let n = r.n;
+        let m = distinct_attrs(seed, "c15", n);
+        let bases = Bases(w.bases.0[..n].to_vec());
+        let cpk = CL03CommitmentPublicKey { N: w.cpk.N.clone(), h: w.cpk.h.clone(), g_bases: w.cpk.g_bases[..n].to_vec() };
+        let det0 = json!({"suite": CS::NAME, "n": n, "hidden": r.u});
+        let (_sig, p) = match honest::<CS>(w, n, &m, &r.u) { O::Ok(x) => x, o => { env.ctx.violation("C15:proof_gen-failed", &o.describe(), env.case(&r.id, det0)); return; } };
+        env.ctx.steps(2);
+        let revealed: Vec<Integer> = (0..n).filter(|i| !r.u.contains(i)).map(|i| m[i].clone()).collect();
+        match &r.kind {
+            Kind::Flow => {
+                env.ctx.state(&[r.id.as_bytes()]);
+                let ok = verify::<CS>(&p, &cpk, &w.pk, &bases, &revealed, &r.u, n);
+                if !expect_bool(env, &r.id, "proof_verify(proof_gen(..))", &ok, true, false, "complete", det0.clone()) { env.ctx.trace(); return; }
+                if from_json::<Pok<CS>>(&to_json(&p)).as_ref() != Some(&p) { env.ctx.violation("C15:roundtrip:json", "JSON round trip changes the proof", env.case(&r.id, det0.clone())); }
+                env.ctx.class("complete"); env.ctx.trace();
+                let mut rej = |name: String, cls: &str, cpk2: &CL03CommitmentPublicKey, pk2: &CL03PublicKey, b2: &Bases, rev2: &[Integer], u2: &[usize], n2: usize| {
+                    if !env.ctx.state(&[r.id.as_bytes(), name.as_bytes()]) { return; }
+                    let got = verify::<CS>(&p, cpk2, pk2, b2, rev2, u2, n2);
+                    expect_bool(env, &r.id, &format!("proof_verify with [{}]", name), &got, false, true, &format!("binding:{}", cls), json!({"base": det0, "edit": name}));
+                    env.ctx.class(&format!("reject:{}:{}", cls, if got.is_panic() { "panic" } else { "false" })); env.ctx.trace();
+                };
+                for k in 0..revealed.len() {
+                    let mut r2 = revealed.clone(); r2[k] += 1u32; rej(format!("revealed[{}] += 1", k), "revealed-attribute", &cpk, &w.pk, &bases, &r2, &r.u, n);
+                    let mut r3 = revealed.clone(); r3[k] = Integer::from(0); rej(format!("revealed[{}] := 0", k), "revealed-attribute", &cpk, &w.pk, &bases, &r3, &r.u, n);
+                    let mut r4 = revealed.clone(); r4.remove(k); r4.push(Integer::from(7)); rej(format!("revealed[{}] removed (7 appended)", k), "revealed-attribute", &cpk, &w.pk, &bases, &r4, &r.u, n);
+                    for k2 in (k + 1)..revealed.len() { let mut r5 = revealed.clone(); r5.swap(k, k2); rej(format!("revealed[{}] <-> revealed[{}]", k, k2), "revealed-attribute", &cpk, &w.pk, &bases, &r5, &r.u, n); }
+                }
+                rej("other signer key".into(), "other-key", &cpk, &other.pk, &bases, &revealed, &r.u, n);
+                let pk_b = CL03PublicKey { N: w.pk.N.clone(), b: w.pk.c.clone(), c: w.pk.b.clone() }; rej("signer key with b and c swapped".into(), "other-key", &cpk, &pk_b, &bases, &revealed, &r.u, n);
+                let b2 = Bases(other.bases.0[..n].iter().map(|x| x.clone() % &w.pk.N).collect()); rej("other bases".into(), "other-bases", &cpk, &w.pk, &b2, &revealed, &r.u, n);
+                if n >= 2 { let mut b3 = bases.clone(); b3.0.swap(0, 1); rej("bases 0 and 1 swapped".into(), "other-bases", &cpk, &w.pk, &b3, &revealed, &r.u, n); }
+                let mut c2 = cpk.clone(); c2.h = (c2.h.clone() * &c2.h) % &c2.N; rej("commitment key: h := h^2".into(), "other-commitment-key", &c2, &w.pk, &bases, &revealed, &r.u, n);
+                for gi in 0..n { let mut c3 = cpk.clone(); c3.g_bases[gi] = (c3.g_bases[gi].clone() * &c3.h) % &c3.N; rej(format!("commitment key: g_{} := g_{}*h", gi, gi), "other-commitment-key", &c3, &w.pk, &bases, &revealed, &r.u, n); }
+                let own = CL03CommitmentPublicKey { N: w.cpk_own.N.clone(), h: w.cpk_own.h.clone(), g_bases: w.cpk_own.g_bases[..n].to_vec() }; rej("commitment key over another modulus".into(), "other-commitment-key", &own, &w.pk, &bases, &revealed, &r.u, n);
+                for u2 in subsets(n) { if u2 == r.u { continue; } let rev2: Vec<Integer> = (0..n).filter(|i| !u2.contains(i)).map(|i| m[i].clone()).collect(); rej(format!("claimed hidden set {:?} (with the true attributes at the claimed revealed positions)", u2), "other-hidden-set", &cpk, &w.pk, &bases, &rev2, &u2, n); }
+                { let bigger = Bases(w.bases.0[..n + 1].to_vec()); let cbig = CL03CommitmentPublicKey { N: w.cpk.N.clone(), h: w.cpk.h.clone(), g_bases: w.cpk.g_bases[..n + 1].to_vec() };
+                  // (an extra revealed attribute 0 is NOT a different statement: a^0 = 1, the signature genuinely verifies on (m, 0); not judged)
+                  let mut rev3 = revealed.clone(); rev3.push(Integer::from(5)); rej("n + 1 (extra revealed attribute 5)".into(), "attribute-count", &cbig, &w.pk, &bigger, &rev3, &r.u, n + 1); }
+                if n >= 1 { let u2: Vec<usize> = r.u.iter().copied().filter(|&i| i < n - 1).collect(); let rev2: Vec<Integer> = (0..n - 1).filter(|i| !u2.contains(i)).map(|i| m[i].clone()).collect(); if u2.len() == r.u.len() || !r.u.contains(&(n - 1)) { rej("n - 1".into(), "attribute-count", &cpk, &w.pk, &bases, &rev2, &u2, n - 1); } }
+                if n == 3 && r.u == vec![0, 2] { env.ctx.sample(json!({"root": r.id, "edits": "revealed attributes, keys, bases, commitment keys, every other hidden set, n +- 1"})); }
+            }
+            Kind::Leaf(ch, nch) => {
+                let j = to_json(&p);
+                let leaves = int_leaf_paths(&j);
+                for (li, path) in leaves.iter().enumerate() {
+                    if li % nch != *ch { continue; }
+                    let cur = leaf_int(json_get(&j, path).unwrap()).unwrap();
+                    let mut edits: Vec<(String, Value)> = leaf_perturbations(&cur).into_iter().map(|(nm, v)| { let mut x = j.clone(); json_set(&mut x, path, int_leaf(&v)); (nm.to_string(), x) }).collect();
+                    if let Some(sib) = leaves.iter().skip(li + 1).find(|q| q.len() == path.len() && q[..q.len() - 1] == path[..path.len() - 1]) {
+                        let ov = json_get(&j, sib).unwrap().clone();
+                        if ov != *json_get(&j, path).unwrap() { let mut x = j.clone(); json_set(&mut x, path, ov); json_set(&mut x, sib, int_leaf(&cur)); edits.push((format!("swap with {}", sib.last().unwrap()), x)); }
+                    }
+                    for (nm, x) in edits {
+                        let name = format!("/{} {}", path.join("/"), nm);
+                        if !env.ctx.state(&[r.id.as_bytes(), name.as_bytes()]) { continue; }
+                        let p2: Option<Pok<CS>> = from_json(&x);
+                        let got = match &p2 { Some(q) => verify::<CS>(q, &cpk, &w.pk, &bases, &revealed, &r.u, n), None => O::Ok(false) };
+                        expect_bool(env, &r.id, &format!("proof_verify after leaf edit {}", name), &got, false, true, &format!("leaf-edit:/{}", path_class(path)), json!({"base": det0, "leaf": path.join("/"), "edit": nm}));
+                        env.ctx.class(&format!("leaf:{}", match got { O::Ok(false) => "rejected", O::Ok(true) => "accepted", _ => "refused-by-panic" })); env.ctx.trace();
+                    }
+                }
+                env.ctx.extra(&format!("leaves:{}", r.id.rsplitn(2, "/chunk").last().unwrap_or("")), json!(leaves.len()));
+            }
+        }
+    });
+}
